@@ -499,6 +499,17 @@ func (r *Runner) Search(o Op) {
 		kind = "search:error"
 	}
 	r.Out.Emit(kind, line, impl, len(hits) > 0)
+	// formula lines: the hybrid expression generated from vamana.go, evaluated by the driver on the reported distance
+	for i, h := range hits {
+		if i >= 4 {
+			break
+		}
+		wf := "-"
+		if q.Weight != nil {
+			wf = fmt.Sprintf("%08x", math.Float32bits(*q.Weight))
+		}
+		r.Out.Emit("hyb", fmt.Sprintf("hyb vamana %s %08x", wf, math.Float32bits(h.dist)), fmt.Sprintf("%08x", math.Float32bits(h.hybrid)), true)
+	}
 	r.Last = "answer: " + impl
 	if r.Verbose {
 		fmt.Println("  answer:", impl)
